@@ -205,6 +205,15 @@ class Interp1:
 
     def for_(self, s):
         it = s.iter
+        # `for j, x in enumerate(X)` is read as `for j in range(len(X)): x = X[j]; ...`
+        if isinstance(it, ast.Call) and src(it.func) == "enumerate" and len(it.args) == 1 and isinstance(s.target, ast.Tuple) and len(s.target.elts) == 2 \
+                and all(isinstance(e, ast.Name) for e in s.target.elts):
+            j, x = s.target.elts[0].id, s.target.elts[1].id
+            eq = ast.parse("for %s in range(len(%s)):\n    %s = %s[%s]\n    pass" % (j, src(it.args[0]), x, src(it.args[0]), j)).body[0]
+            eq.body = eq.body[:1] + list(s.body)
+            ast.copy_location(eq, s)
+            ast.fix_missing_locations(eq)
+            return self.for_(eq)
         # for j in range(n) with symbolic n: universally quantified index over the segment that is indexed by j
         if isinstance(it, ast.Call) and src(it.func) == "range" and len(it.args) == 1:
             n = self.ev(it.args[0])
